@@ -4,6 +4,7 @@
 and run on until it is about to perform the next one (or finishes).  Every gated operation is appended to
 world.log as (proc, seq, op, relpath, outcome) while the scheduler token is held - no wall-clock ordering.
 """
+import os
 import threading
 
 from .core import MachineryError
@@ -42,6 +43,7 @@ class World:
         self.opcount = {}
         self.timeout = 60
         World.current = self
+        _register()
 
     # ---- transports
     def url(self, rel=""):
@@ -85,7 +87,9 @@ class World:
             except Killed:
                 st["result"] = ("killed", None)
             except BaseException as e:  # noqa
+                import traceback
                 st["result"] = ("exc", type(e).__name__, str(e)[:200])
+                st["tb"] = [(os.path.basename(f.filename), f.name) for f in traceback.extract_tb(e.__traceback__)]
             with self.cv:
                 st["state"] = "done"
                 st["pending"] = None
